@@ -33,6 +33,7 @@ LEVEL_TEXT = (
     "validator, interpreted abstractly on the same table in different insertion orders, produce identical results; the package uses no other "
     "nondeterminism source. Decides hash-seed independence for every input (it is a property of the code, not of the data)."
 )
+LEVEL_TEXT += " Also decided (R12.4): get_metric's `axes` and set_metrics' `key`, requests that are sets by nature, are re-analysed as Python sets: no order-sensitive consumer is reached."
 LEVEL_NOTE = "Trusted: determinism of numpy/xarray/dask; insertion-ordered dicts."
 
 REVIEWED_BENIGN = {
